@@ -276,6 +276,10 @@ class Observation(BaseSourceSpectrum):
         """
         x = self._validate_binned_wavelengths(wavelengths)
         i = np.searchsorted(self.binset, x)
+
+        # Wavelengths beyond the last bin center have no bin to match;
+        # keep the index valid so that they are rejected below.
+        i = np.minimum(i, self.binset.size - 1)
         if not np.allclose(self.binset[i].value, x.value):
             raise exceptions.InterpolationNotAllowed(
                 'Some or all wavelength values are not in binset.')
